@@ -4042,6 +4042,14 @@ func (a *Association) getDataPacketsToRetransmit(budgetScaled *int64, consumed *
 			continue
 		}
 
+		if chunkPayload.abandoned() {
+			// marked while the message was only partly in flight (it cannot be
+			// abandoned before its last fragment has a TSN) and abandoned since
+			chunkPayload.retransmit = false
+
+			continue
+		}
+
 		if i == 0 && int(a.RWND()) < len(chunkPayload.userData) {
 			// allow as zero window probe
 		} else if bytesToSend+len(chunkPayload.userData) > int(awnd) {
